@@ -102,7 +102,7 @@ Lemma ext_stop s u self t s' o p : stop_if_parent_gone s u self t = (s', o, p) -
 Proof.
   intros H. apply ext_of_keep; [eapply keep_stop; exact H|]. revert H.
   unfold stop_if_parent_gone. destruct (get s u) as [pa|]; [|intros H; inversion H; subst; apply regsame_refl].
-  destruct (st_ge_terminating (a_st pa)); [|intros H; inversion H; subst; apply regsame_refl].
+  destruct (not_alive (a_st pa)); [|intros H; inversion H; subst; apply regsame_refl].
   destruct (terminate s self t (a_graceful pa)) as [s1 o1] eqn:E. intros H; inversion H; subst. eapply regsame_terminate; exact E.
 Qed.
 
